@@ -1,6 +1,7 @@
 import Nstd.Common.Basic
 import Nstd.Callback.Model
 import Nstd.Callback.Spec
+import Nstd.Callback.ModelReuse
 /-
   Line protocol of the Callback area (property C12).  Universe of the harness: 3 emitters
   with 10 signals each (signal `g < 9` has `g` `int` parameters: it goes through the arity-`g` overloads of
@@ -29,7 +30,7 @@ import Nstd.Callback.Spec
   disconnected) + `!` when the dirty flag or the activation pointer is set; `<pairs>` = `-` or
   comma separated `g.s`; `x` = destroyed.  The driver also runs the specification machine on the
   same lines and appends ` SPECDIFF` when the two invocation logs differ (a test of theorem
-  `emit_refines`), ` LSDIFF` when a listener-side list differs from the specification's view, ` FAULT` when the model touched freed memory, ` OOF` when the fuel ran out.
+  `emit_refines`), ` REUSEDIFF` when the run of the model with address reuse (`execR`) shows another log or bookkeeping, ` LSDIFF` when a listener-side list differs from the specification's view, ` FAULT` when the model touched freed memory, ` OOF` when the fuel ran out.
 -/
 open Nstd.Common
 namespace Nstd.Callback
@@ -47,9 +48,11 @@ structure DState where
   table : List ((Nat × Nat × Nat) × List Action)
   mr : Run State
   sr : Run Spec.SState
+  /-- the run of the model with ADDRESS REUSE (`execR`, ModelReuse.lean): a re-created object gets the id of its predecessor -/
+  rr : Run State
 
 def DState.init : DState :=
-  { table := [], mr := Run.init State.fresh NE NL, sr := Run.init Spec.SState.fresh NE NL }
+  { table := [], mr := Run.init State.fresh NE NL, sr := Run.init Spec.SState.fresh NE NL, rr := Run.init State.fresh NE NL }
 
 def digit (c : Char) (bound : Nat) : Option Nat :=
   if '0' ≤ c ∧ c ≤ '9' ∧ c.toNat - 48 < bound then some (c.toNat - 48) else none
@@ -143,11 +146,18 @@ def lsDiff (d : DState) : Bool :=
     | some li => (List.range NE).any (fun e =>
         li.sigs (d.mr.emId e) != (d.sr.m.lsig (d.mr.lId l) (d.mr.emId e)).map (·.2)))
 
+/-- log and bookkeeping of a run, read through its own variables -/
+def obsCore (r : Run State) : String :=
+  logStr r.log ++ " | " ++ " ".intercalate ((List.range NE).map (emitterStr r)) ++ " | " ++
+    " ".intercalate ((List.range NL).map (listenerStr r))
+
 def obs (d : DState) : String :=
   let st := d.mr.m
-  logStr d.mr.log ++ " | " ++ " ".intercalate ((List.range NE).map (emitterStr d.mr)) ++ " | " ++
-    " ".intercalate ((List.range NL).map (listenerStr d.mr)) ++
+  obsCore d.mr ++
     (if d.mr.log != d.sr.log then " SPECDIFF" else "") ++
+    -- a test of the OPEN refinement `reuse_refines` (PropsReuse.lean): the run with address reuse must show the same log and
+    -- the same bookkeeping, and must not touch freed memory either
+    (if obsCore d.rr != obsCore d.mr || d.rr.m.fault || d.rr.bad || d.rr.m.frames.length != st.frames.length then " REUSEDIFF" else "") ++
     (if lsDiff d then " LSDIFF" else "") ++
     (if st.fault || d.mr.bad || !st.frames.isEmpty then " FAULT" else "") ++
     (if d.mr.oof || d.sr.oof then " OOF" else "")
@@ -165,6 +175,9 @@ def stepLine (d : DState) (ws : List String) : DState × String :=
         ({ d with table := ((l, s, k), as) :: d.table }, "ok")
       else (d, "bad-op")
     | _, _, _, _ => (d, "bad-op")
+  -- `mfp`: the harness checks what the model assumes of `MemberFuncPtr` on its 10 signal and 20 slot pointers (equal size,
+  -- `==` = identity = equality of the bytes, `<`/`>` a strict total order); the model has ids
+  | ["mfp"] => (d, s!"mfp ok sigs={NG} slots={NS * NG}")
   | ["refargs", v] =>
     match num v NV with
     | some v => (d, refArgs v)
@@ -180,7 +193,8 @@ def stepLine (d : DState) (ws : List String) : DState × String :=
       let P : Prog := Prog.ofTable d.table (fun g => g == 9)
       let mr := exec machine P FUEL { d.mr with log := [] } (.acts as)
       let sr := exec Spec.machine P FUEL { d.sr with log := [] } (.acts as)
-      let d' := { d with mr := mr, sr := sr }
+      let rr := execR P FUEL { d.rr with log := [] } (.acts as)
+      let d' := { d with mr := mr, sr := sr, rr := rr }
       (d', obs d')
 
 end Nstd.Callback
